@@ -90,6 +90,12 @@ def stream_nexts(S, k, b, lp, start):
             continue
         a = t["args"][0]
         ty = a["p"]["ty"] if a["k"] != "const" else ""
+        if "file_or_mem_buf::Iter<" not in ty and a["k"] != "const":
+            # a generic helper (`fn next_share(it: &mut impl Iterator<..>, w)`) spliced into the walker: the `next`
+            # is typed by the helper's parameter; the stream is the variable the parameter was bound to
+            rl0 = root_local(b, a)
+            if rl0 is not None and "file_or_mem_buf::Iter<" in b.locals[rl0]["ty"]:
+                ty = b.locals[rl0]["ty"]
         if "file_or_mem_buf::Iter<" not in ty:
             continue
         rl = root_local(b, a)
